@@ -133,5 +133,5 @@ pub fn suites() -> Vec<Suite> {
     }]
 }
 
-pub const RULE: &str = "case = world + history (profile 'funds': 11/16 of provide/swap calls have their attached funds played with: less, more, a named coin absent, an extra unrelated coin, the pair's other denom attached, random amount; coin sets are always valid: distinct denoms, positive amounts); judged per call that names a native asset: success => attached == declared for every named native asset (absent counts as zero) and the pair's balance of that denom rose by exactly the declared amount; failure => chain state byte-identical; non-trivial = history with a declared != attached case or an accepted call with a positive declared amount; distinct = hash of the tape. The converse (equal funds => success) is not claimed and not asserted Every successful provision into a live pool - whatever its message lists - must in addition mint no more LP than the ATTACHED coin of each native side justifies (m*r_i <= attached_i*S): the pool never credits native value that was not attached.";
-pub const ASSUMPTIONS: &[&str] = &["cw-multi-test chain model; only valid coin sets can be attached (as on a chain)"];
+pub const RULE: &str = "case = world + history (profile 'funds': 11/16 of provide/swap calls have their attached funds played with: less, more, a named coin absent, an extra unrelated coin, the pair's other denom attached, random amount; coin sets have distinct denoms and positive amounts, except for one shape - on a pair with two named native coins one of them is MISSING and a repeat of the other stands in its place - whose verdict does not depend on how a repeated denom is counted); judged per call that names a native asset: success => attached == declared for every named native asset (absent counts as zero) and the pair's balance of that denom rose by exactly the declared amount; failure => chain state byte-identical; non-trivial = history with a declared != attached case or an accepted call with a positive declared amount; distinct = hash of the tape. The converse (equal funds => success) is not claimed and not asserted Every successful provision into a live pool - whatever its message lists - must in addition mint no more LP than the ATTACHED coin of each native side justifies (m*r_i <= attached_i*S): the pool never credits native value that was not attached.";
+pub const ASSUMPTIONS: &[&str] = &["cw-multi-test chain model; coin sets are valid (as on a chain, which refuses a list repeating a denom) apart from the one repeated-coin shape described in the rule, in which a named denom is absent"];
